@@ -5,7 +5,10 @@
    run is validated by TunnelTrace.  (Model level: a reference talker that encodes with the
    normative layout makes the machine transparent - checked here as RefTransparent.) *)
 EXTENDS CanTunnel, CanBuild, Json, TLC
-CONSTANTS NPackets, Lens
+CONSTANTS NPackets, Lens,
+          CapSet       \* {}: enumerate; otherwise { 100 * j + len_j } = the data lengths of ONE prescribed scenario of Count frames
+                       \* (packets filled up to the size limit of the example programs, where enumeration is out of reach;
+                       \* a set because TLC configuration files have no tuples)
 VARIABLES k
 ASSUME Buf = {1}
 
@@ -15,6 +18,12 @@ IdSet == { [id |-> V64(0), eff |-> 0], [id |-> V64(2047), eff |-> 0], [id |-> V6
 Frames ==
   { [id |-> SubBytes(i.id, 4, 4), eff |-> i.eff, rtr |-> r, fdf |-> Fd, brs |-> b, esi |-> e, data |-> Data(ln, b + 2 * e + r)] :
       i \in IdSet, r \in (IF Fd = 1 THEN {0} ELSE {0, 1}), b \in (IF Fd = 1 THEN {0, 1} ELSE {0}), e \in (IF Fd = 1 THEN {0, 1} ELSE {0}), ln \in Lens }
+
+IdSeq == << [id |-> V64(291), eff |-> 1], [id |-> V64(2047), eff |-> 0], [id |-> <<0,0,0,0,31,255,255,255>>, eff |-> 1], [id |-> V64(0), eff |-> 0] >>
+CapFrame(j) ==
+  LET i == IdSeq[(j % 4) + 1] IN
+  [id |-> SubBytes(i.id, 4, 4), eff |-> i.eff, rtr |-> IF Fd = 1 THEN 0 ELSE (j \div 4) % 2, fdf |-> Fd,
+   brs |-> IF Fd = 1 THEN j % 2 ELSE 0, esi |-> IF Fd = 1 THEN (j \div 2) % 2 ELSE 0, data |-> Data((CHOOSE e \in CapSet : e \div 100 = j) % 100, j)]
 
 \* reference talker: the packet a conforming talker would send for the pending frames
 RECURSIVE RefAcfs(_)
@@ -34,7 +43,8 @@ RefPacket(fs) ==
 GInit == Init /\ k = 0 /\ mem = << >> /\ hb = << >> /\ out = Sentinel /\ step = << >>
 GNext ==
   /\ UNCHANGED <<mem, hb, out, step>>
-  /\ \/ k < NPackets /\ (\E f \in Frames : Read(f)) /\ k' = k
+  /\ \/ k < NPackets /\ CapSet = {} /\ (\E f \in Frames : Read(f)) /\ k' = k
+     \/ k < NPackets /\ CapSet # {} /\ Len(inq) < Count /\ Read(CapFrame(Len(inq) + 1)) /\ k' = k
      \/ k < NPackets /\ Send(RefPacket(pending)) /\ k' = k + 1
      \/ Deliver(Head(wire), Decode(Head(wire))) /\ k' = k
 GSpec == GInit /\ [][GNext]_<<tvars, k, mem, hb, out, step>>
